@@ -235,7 +235,9 @@ impl SourceView {
             let mut char_iter = line.chars().peekable();
 
             while let Some(&c) = char_iter.peek() {
-                if idx >= col as usize {
+                // a surrogate pair straddling `col` belongs to a non-empty slice,
+                // like one straddling the end of the span
+                if idx >= col as usize || (span > 0 && idx + c.len_utf16() > col as usize) {
                     break;
                 }
                 char_iter.next();
